@@ -14,6 +14,7 @@
 //   eq 0 j1 j2 c0 c1 solref[2] solimp[5]          joint equality (j2 = -1: none);   eq 1 body ax ay az solref[2] solimp[5]   connect to the world
 //   site name px py pz                            (of the last body)      wsite name px py pz   (on the world body)
 //   tendon stiffness damping sl0 sl1 nwrap (kind ref coef)*     kind 0: joint j<ref> with coef; kind 1: site named s<ref>
+//   sensor typename objtype objname reftype refname      (objtype / reftype: body xbody site joint actuator none; refname "-" when none)
 //   act jointindex kind gear kp                   (kind 0 motor, 1 position)
 //   END
 //   STATE nq qpos.. nv qvel.. nu ctrl..          (any number)
@@ -62,6 +63,23 @@ static void read_geom(mjsGeom* g, char* p) {
   }
 }
 
+static const struct { const char* name; int type; } SENS[] = {
+  {"framepos", mjSENS_FRAMEPOS}, {"framequat", mjSENS_FRAMEQUAT}, {"framexaxis", mjSENS_FRAMEXAXIS}, {"frameyaxis", mjSENS_FRAMEYAXIS},
+  {"framezaxis", mjSENS_FRAMEZAXIS}, {"framelinvel", mjSENS_FRAMELINVEL}, {"frameangvel", mjSENS_FRAMEANGVEL},
+  {"framelinacc", mjSENS_FRAMELINACC}, {"frameangacc", mjSENS_FRAMEANGACC}, {"velocimeter", mjSENS_VELOCIMETER}, {"gyro", mjSENS_GYRO},
+  {"accelerometer", mjSENS_ACCELEROMETER}, {"jointpos", mjSENS_JOINTPOS}, {"jointvel", mjSENS_JOINTVEL}, {"ballquat", mjSENS_BALLQUAT},
+  {"ballangvel", mjSENS_BALLANGVEL}, {"subtreecom", mjSENS_SUBTREECOM}, {"subtreelinvel", mjSENS_SUBTREELINVEL},
+  {"subtreeangmom", mjSENS_SUBTREEANGMOM}, {"actuatorpos", mjSENS_ACTUATORPOS}, {"actuatorvel", mjSENS_ACTUATORVEL},
+  {"actuatorfrc", mjSENS_ACTUATORFRC}, {"clock", mjSENS_CLOCK}, {NULL, 0}};
+static int objtype_of(const char* t) {
+  if (!strcmp(t, "body")) return mjOBJ_BODY;
+  if (!strcmp(t, "xbody")) return mjOBJ_XBODY;
+  if (!strcmp(t, "site")) return mjOBJ_SITE;
+  if (!strcmp(t, "joint")) return mjOBJ_JOINT;
+  if (!strcmp(t, "actuator")) return mjOBJ_ACTUATOR;
+  return mjOBJ_UNKNOWN;
+}
+
 static void dump_model(const mjModel* m) {
   printf("\"dims\":{\"nq\":%d,\"nv\":%d,\"nu\":%d,\"na\":%d,\"nbody\":%d,\"njnt\":%d,\"ngeom\":%d},", (int)m->nq, (int)m->nv, (int)m->nu,
          (int)m->na, (int)m->nbody, (int)m->njnt, (int)m->ngeom);
@@ -93,7 +111,10 @@ static void dump_model(const mjModel* m) {
   pa("jnt_solref", m->jnt_solref, mjNREF * m->njnt, 1); pa("jnt_solimp", m->jnt_solimp, mjNIMP * m->njnt, 1);
   pa("dof_solref", m->dof_solref, mjNREF * m->nv, 1); pa("dof_solimp", m->dof_solimp, mjNIMP * m->nv, 1);
   pa("eq_solref", m->eq_solref, mjNREF * m->neq, 1); pa("eq_solimp", m->eq_solimp, mjNIMP * m->neq, 1);
-  pa("eq_data", m->eq_data, mjNEQDATA * m->neq, 0);
+  pa("eq_data", m->eq_data, mjNEQDATA * m->neq, 1);
+  pi("sensor_type", m->sensor_type, m->nsensor, 1); pi("sensor_objtype", m->sensor_objtype, m->nsensor, 1); pi("sensor_objid", m->sensor_objid, m->nsensor, 1);
+  pi("sensor_reftype", m->sensor_reftype, m->nsensor, 1); pi("sensor_refid", m->sensor_refid, m->nsensor, 1); pi("sensor_adr", m->sensor_adr, m->nsensor, 1);
+  pi("sensor_dim", m->sensor_dim, m->nsensor, 0);
   printf("},");
 }
 
@@ -106,7 +127,7 @@ static void dump_state(const mjModel* m, mjData* d, const mjtNum* qpos, const mj
   pa("xpos", d->xpos, 3 * m->nbody, 1); pa("xquat", d->xquat, 4 * m->nbody, 1); pa("xipos", d->xipos, 3 * m->nbody, 1);
   pa("qfrc_bias", d->qfrc_bias, nv, 1); pa("qfrc_passive", d->qfrc_passive, nv, 1); pa("qfrc_actuator", d->qfrc_actuator, nv, 1);
   pa("qacc", d->qacc, nv, 1); pa("qacc_smooth", d->qacc_smooth, nv, 1); pa("qfrc_constraint", d->qfrc_constraint, nv, 1);
-  pa("ten_length", d->ten_length, m->ntendon, 1);
+  pa("ten_length", d->ten_length, m->ntendon, 1); pa("sensordata", d->sensordata, m->nsensordata, 1);
   mjtNum* qM = (mjtNum*)calloc((size_t)nv * nv + 1, sizeof(mjtNum));
   mj_fullM(m, d, qM);
   pa("qM", qM, nv * nv, 1);
@@ -143,14 +164,14 @@ int main(void) {
   mjg_install_handlers();
   char* line = NULL; size_t cap = 0;
   mjSpec* s = NULL; mjModel* m = NULL; mjData* d = NULL;
-  mjsBody* bodies[MAXB]; int nb = 0; mjsBody* cur = NULL; int njnt = 0, nact = 0, nstate = 0, failed = 0, ntend = 0;
+  mjsBody* bodies[MAXB]; int nb = 0; mjsBody* cur = NULL; int njnt = 0, nact = 0, nstate = 0, failed = 0, ntend = 0, nsens = 0;
   while (getline(&line, &cap, stdin) > 0) {
     char* p = line;
     char kw[32]; int off = 0;
     if (sscanf(p, "%31s%n", kw, &off) != 1) continue;
     p += off;
     if (!strcmp(kw, "MODEL")) {
-      s = mj_makeSpec(); nb = 0; cur = NULL; njnt = 0; nact = 0; nstate = 0; failed = 0; ntend = 0; m = NULL; d = NULL;
+      s = mj_makeSpec(); nb = 0; cur = NULL; njnt = 0; nact = 0; nstate = 0; failed = 0; ntend = 0; nsens = 0; m = NULL; d = NULL;
       s->compiler.degree = 0;
       s->option.jacobian = mjJAC_DENSE;
     } else if (!strcmp(kw, "opt")) {
@@ -225,6 +246,17 @@ int main(void) {
       }
       for (int i = 0; i < mjNREF; i++) e->solref[i] = strtod(p, &p);
       for (int i = 0; i < mjNIMP; i++) e->solimp[i] = strtod(p, &p);
+    } else if (!strcmp(kw, "sensor")) {
+      char tn[32], ot[32], on[32], rt[32], rn[32];
+      if (sscanf(p, "%31s %31s %31s %31s %31s", tn, ot, on, rt, rn) == 5) {
+        mjsSensor* sn = mjs_addSensor(s); mjg_name(sn->element, "sn", nsens++);
+        int found = 0;
+        for (int k = 0; SENS[k].name; k++) if (!strcmp(SENS[k].name, tn)) { sn->type = (mjtSensor)SENS[k].type; found = 1; }
+        if (!found) { fprintf(stderr, "unknown sensor %s\n", tn); }
+        sn->objtype = (mjtObj)objtype_of(ot);
+        if (strcmp(on, "-")) mjs_setString(sn->objname, on);
+        if (strcmp(rt, "none")) { sn->reftype = (mjtObj)objtype_of(rt); mjs_setString(sn->refname, rn); }
+      }
     } else if (!strcmp(kw, "act")) {
       int ji = (int)strtol(p, &p, 10); int kind = (int)strtol(p, &p, 10);
       double gear = strtod(p, &p), kp = strtod(p, &p);
